@@ -390,3 +390,94 @@ def c17_main():
     run.sample(obs[0])
     run.assumptions += ["integer-valued data; quotients are checked against the 3-decimal text by cross multiplication", "regions on chromosomes absent from the bigWig are out of scope"]
     return run.finish()
+
+
+# ---------------------------------------------------------------------------------------------
+# C15 (tool part): bigwigmerge
+# ---------------------------------------------------------------------------------------------
+def merge_case(tdir, d, k, b):
+    tag = "m%d" % k
+    size = 30
+    bws = []
+    for j, inp in enumerate(b["inputs"]):
+        bw, _ = make_bigwig(tdir, d, "%s_%d" % (tag, j), inp, size=size)
+        bws.append(bw)
+    outkind = b["out"]
+    ext = {"bw": "bw", "bigWig": "bigWig", "bedGraph": "bedGraph"}.get(outkind, "out")
+    out = os.path.join(d, "merged_%s.%s" % (tag, ext))
+    args = [out]
+    for bw in bws:
+        args += ["-b", bw]
+    if outkind == "type-bigwig":
+        args += ["--output-type", "bigwig"]
+    if outkind == "type-BedGraph":
+        args += ["--output-type", "BedGraph"]
+    if b["clip"]:
+        args += ["--clip", str(b["clip"])]
+    if b["adjust"]:
+        args += ["--adjust", str(b["adjust"])]
+    if b["thr"]:
+        args += ["--threshold", str(b["thr"])]
+    args += ["-t", str(b["threads"])]
+    rc, _, err = run_tool(tdir, "own", "bigwigmerge", args)
+    produced = 1 if os.path.exists(out) and os.path.getsize(out) > 0 else 0
+    # "bases absent where the thresholded sum is absent": an input set whose merged result is empty legitimately gives an empty bedGraph
+    is_bw = outkind in ("bw", "bigWig", "type-bigwig")
+    text = out
+    rc2 = 0
+    if produced and is_bw:
+        text = out + ".txt"
+        rc2, _, err2 = run_tool(tdir, "own", "bigwigtobedgraph", [out, text, "-t", "1"])
+        err += err2
+    elif not is_bw and os.path.exists(out):
+        produced = 1
+    recs, parsed = [], 1
+    if produced and rc2 == 0:
+        try:
+            from pyverif.image import chrom_idx
+            for line in open(text).read().splitlines():
+                p = line.split("\t")
+                v = float(p[3])
+                if v != int(v):
+                    parsed = 0
+                recs.append([chrom_idx(p[0]), int(p[1]), int(p[2]), int(v)])
+        except Exception:
+            parsed = 0
+    else:
+        parsed = 1 if not produced else 0
+    for p in bws + [out, out + ".txt"]:
+        try:
+            os.remove(p)
+        except OSError:
+            pass
+    return dict(b, mode="tool", argv=args[1:], obs={"rc": rc, "produced": produced, "parsed": parsed, "out": recs, "err": err[-300:]})
+
+
+def merge_tool_part(run):
+    r = tlc("MC_MergeTool", "MC_MergeTool.cfg", os.path.join(run.wd, "mc_tool"), workers=4, timeout=1200)
+    tlc_must_pass(r, "MC_MergeTool")
+    run.add_tlc("merge_tool_configurations", r)
+    beh = r.replays
+    if len(beh) < 200:
+        raise ToolError("vacuity: %d merge tool configurations" % len(beh))
+    if not run.thorough:
+        beh = beh[run.seed % 3::3]
+    tdir = tools_dir()
+    d = os.path.join(run.wd, "mfiles")
+    os.makedirs(d, exist_ok=True)
+    obs = run_parallel(lambda kb: merge_case(tdir, d, kb[0], kb[1]), list(enumerate(beh)))
+    lines = []
+    for o in obs:
+        lines.append(json.dumps({k: o[k] for k in o if k != "argv"}, separators=(",", ":")))
+        run.count_case(json.dumps({k: o[k] for k in o if k not in ("obs", "inputs", "argv")}, sort_keys=True), True)
+    bad = validate_obs("Obs_Merge", "Obs.cfg", lines, run.wd, "tool", shards=4)
+    run.cov["traces_validated_against_impl"] += len(obs)
+    tags = {}
+    for i, tag in bad:
+        tags[tag] = tags.get(tag, 0) + 1
+        o = obs[i]
+        run.violation("C15 merge tool %s: ds=%s argv=%s -> %s" % (tag, o["ds"], o["argv"], json.dumps(o["obs"])[:300]),
+                      {"kind": "cli15", "tag": tag, "case": {k: o[k] for k in o if k != "obs"}, "obs": o["obs"]})
+    if tags:
+        log("[C15] merge tool failing observations by tag: %s" % tags)
+    run.sample({k: obs[0][k] for k in ("ds", "argv", "obs")})
